@@ -19,9 +19,9 @@ func init() {
 		Explanation: "Decided: R12-isfull — for each call-frame stack implementation, IsFull() is true exactly in the state in which its own Push cannot accept a frame (atom-by-atom comparison of IsFull's returned conjunction with the path condition of Push's overflow exit / the bounds of its element store), and Push records Idx equal to the implementation's own Sp() expression; " +
 			"R12-full — every callFrameStack.Push is dominated by an IsFull() test whose true arm raises a Lua error, or pushes the first frame of a fresh thread; R12-grow — every store to an element of registry.array is dominated in its function by a grow check against cap(array) that reaches resize (or is a shrink/pop store), resize raises through the handler when maxSize is exceeded, registryOverflow raises a Lua error, and raiseError forces one slot when the registry is full before pushing the message; " +
 			"R12-loops — mainLoop and mainLoopWithContext perform the same sequence of effects apart from the context poll; R12-options — NewThread passes the parent's Options unchanged, newLState selects the stack implementation only from MinimizeStackMemory and sizes registry and stack from the Options fields. " +
-			"R13-poolrelease shared — the segmented stack never uses a segment after handing it back to the pool (Pop/SetSp return frames of segments it still owns). NOT decided: that behaviour below the limits is identical across configurations (segment arithmetic of SetSp/Pop/At, copy of the live prefix on resize) — run-time quantities.",
+			"R13-poolrelease shared — the segmented stack never uses a segment after handing it back to the pool (Pop/SetSp return frames of segments it still owns). R12-deadpush — when a coroutine dies, threadRun's recover arms empty its registry (SetTop(0)) before pushing the error value that is handed to the resumer: the registry may be full (the limit that killed it), and a second overflow inside the deferred function would skip the hand-over. NOT decided: that behaviour below the limits is identical across configurations (segment arithmetic of SetSp/Pop/At, copy of the live prefix on resize) — run-time quantities.",
 		Trusted: []string{"Go bounds checks make an element store at index i fail exactly when i >= len(slice)"},
-		Rules:   []func(*Ctx){ruleIsFull, ruleFull, ruleGrow, ruleLoops, ruleOptions, rulePoolRelease},
+		Rules:   []func(*Ctx){ruleIsFull, ruleFull, ruleGrow, ruleLoops, ruleOptions, rulePoolRelease, ruleDeadThreadPush},
 	})
 }
 
@@ -471,7 +471,7 @@ func ruleGrow(c *Ctx) {
 					continue
 				}
 				l := lin(cand)
-				if l.T["p:requiredSize"] == 1 {
+				if len(fn.Params) > 1 && l.T["p:"+fn.Params[1].Name()] == 1 { // resize(requiredSize)
 					continue
 				}
 				okc = false
@@ -669,5 +669,44 @@ func ruleOptions(c *Ctx) {
 			}
 		})
 		c.check(okc, R, "newFixedCallFrameStack:size", p.pos(fn.Pos()), "array length = requested size", "fixed call stack is not sized by its parameter")
+	}
+}
+
+
+// ruleDeadThreadPush: threadRun's deferred recover pushes the error value on the dying thread before
+// handing it to the resumer. If the thread died of a registry overflow that push overflows again —
+// inside the deferred function — and the hand-over (CurrentThread, Parent, kill) never happens (F33).
+// Every such push is therefore dominated by SetTop(0).
+func ruleDeadThreadPush(c *Ctx) {
+	const R = "R12-deadpush"
+	c.floor(R, 1)
+	p := c.P
+	tr := c.need(R, "lua", "threadRun")
+	if tr == nil {
+		return
+	}
+	push := p.Fn("lua", "(*LState).Push")
+	setTop := p.Fn("lua", "(*LState).SetTop")
+	for _, an := range tr.AnonFuncs {
+		if len(recoverCalls(an)) == 0 {
+			continue
+		}
+		g := p.G(an)
+		var clears []*ssa.Call
+		for _, cl := range callsTo(an, setTop) {
+			if k, ok := constInt(cl.Call.Args[1]); ok && k == 0 {
+				clears = append(clears, cl)
+			}
+		}
+		for i, cl := range callsTo(an, push) {
+			c.Sites++
+			okc := false
+			for _, st := range clears {
+				if vkey(st.Call.Args[0]) == vkey(cl.Call.Args[0]) && g.Dominates(st, cl) {
+					okc = true
+				}
+			}
+			c.check(okc, R, fmt.Sprintf("%s:push#%d", fname(an), i+1), p.ipos(cl), "the dead thread's registry is emptied before the error value is pushed", "threadRun's recover arm pushes the error value onto the dead thread's registers without emptying them first: a coroutine killed by 'registry overflow' overflows again inside the deferred function, the error is not handed over as (false, msg) and the coroutine stays the current thread")
+		}
 	}
 }
